@@ -54,12 +54,15 @@ def _rows(rng, n, d=2, seg=None, levels=(0.0, 5.0, -5.0, 7.0)):
     return [np.array([[levels[min(i // seg, len(levels) - 1)] + rng.randn() for _ in range(d)]]) for i in range(n)]
 
 
-def _batches(rng, n, d=2, rows=40, levels=(0.0, 0.0, 4.0, 4.0, -3.0, -3.0, 0.0, 5.0), cols=None, vary_rows=True):
+def _batches(rng, n, d=2, rows=40, levels=(0.0, 0.0, 4.0, 4.0, -3.0, -3.0, 0.0, 5.0), cols=None, vary_rows=True, blocky=False):
     out = []
     for i in range(n):
         r = rows + (int(rng.randint(0, 9)) if vary_rows else 0)
         lev = levels[i % len(levels)] if i >= len(levels) else levels[i]
         a = lev + rng.randn(r, d)
+        if blocky:
+            # a quantised block stored first (few distinct values), continuous rows afterwards
+            a[: (2 * r) // 3] = lev + rng.randint(0, 2, ((2 * r) // 3, d))
         out.append(pd.DataFrame(a, columns=cols or ["f%d" % j for j in range(d)]))
     return out
 
